@@ -28,9 +28,10 @@ def flush : Run → List String → List String
 /-- LOSSLESS run-length form of the raw slots (0 = cleared slot), the same state machine as
 `encodeSlots` in harness/comp/ring/ring.go: maximal zero runs `0`/`0*z`, maximal ascending runs of
 ≥ 3 consecutive non-zero values `v..w`, everything else value by value. -/
-def rle : List Nat → Run → List String → List String
+def rle : List (Option Nat) → Run → List String → List String
   | [], run, acc => (flush run acc).reverse
-  | v :: vs, run, acc =>
+  | o :: vs, run, acc =>
+    let v := o.getD 0
     if v == 0 then
       match run with
       | .zeros n => rle vs (.zeros (n + 1)) acc
@@ -41,7 +42,7 @@ def rle : List Nat → Run → List String → List String
       | _ => rle vs (.asc v v) (flush run acc)
 
 def showState (r : R) : String :=
-  s!"h={r.head} t={r.tail} e={joinWith "," (rle (r.elems.map (·.getD 0)) .empty [])}"
+  s!"h={r.head} t={r.tail} e={joinWith "," (rle r.elems .empty [])}"
 
 /-- the iterator callback used by both sides: add `d`, stop after an element `x` with `x % m = k`;
 the closure state is an order-sensitive checksum of the values seen (`acc*31 + x mod 2^32`),
